@@ -49,6 +49,25 @@ deriving Repr, Inhabited
 def field? (s : String) : Option (Option Int) :=
   if s = "x" then some none else (s.toInt?).map some
 
+/-- Code points of a (valid) UTF-8 byte sequence. -/
+def utf8Decode : List Nat → List Nat
+  | [] => []
+  | b :: rest =>
+    if b < 0x80 then b :: utf8Decode rest
+    else if b < 0xe0 then
+      match rest with
+      | b1 :: r => ((b % 32) * 64 + b1 % 64) :: utf8Decode r
+      | _ => []
+    else if b < 0xf0 then
+      match rest with
+      | b1 :: b2 :: r => ((b % 16) * 4096 + (b1 % 64) * 64 + b2 % 64) :: utf8Decode r
+      | _ => []
+    else
+      match rest with
+      | b1 :: b2 :: b3 :: r => ((b % 8) * 262144 + (b1 % 64) * 4096 + (b2 % 64) * 64 + b3 % 64) :: utf8Decode r
+      | _ => []
+termination_by l => l.length
+
 def parseInstr (tok : String) : Option Instr :=
   match tok.splitOn ":" with
   | ["P"] => some .paint
@@ -63,7 +82,7 @@ def parseInstr (tok : String) : Option Instr :=
   | [k, a, b, c] =>
     if k = "T" ∨ k = "t" then
       match ints? [a, b], hexBytes? c with
-      | some [l, cc], some bytes => if bytes.isEmpty then none else some (.text (k = "t") l cc (bytes.map (·.toNat)))
+      | some [l, cc], some bytes => if bytes.isEmpty then none else some (.text (k = "t") l cc (utf8Decode (bytes.map (·.toNat))))
       | _, _ => none
     else if k = "C" ∨ k = "c" then
       match ints? [a, b, c] with
@@ -84,9 +103,13 @@ def parseInstr (tok : String) : Option Instr :=
 
 /-! ### content functions (the application's model of its own content) -/
 
+/-- A glyph; `+ 1000` when it carries a combining acute accent (U+0301). -/
 def baseGlyph (w : Nat) (l c : Int) : Nat :=
   let v := (l * 7 + c * 3 + (w : Int) * 11) % 19
-  if v < 5 then 32 else 33 + ((l * 13 + c * 5 + (w : Int) * 17) % 90).toNat
+  if v < 5 then 32
+  else
+    let g := 33 + ((l * 13 + c * 5 + (w : Int) * 17) % 90).toNat
+    if (l * 5 + c * 11 + (w : Int) * 3) % 7 = 0 then g + 1000 else g
 
 /-- Shifts, newest first: a scroll of `rect` by `(d, r)` moved the content. -/
 def glyphAt (w : Nat) : List (Rect × Int × Int) → Int → Int → Nat
@@ -116,7 +139,8 @@ def paintProg (glyph : Int → Int → Nat) (rect : Rect) : List DrawOp :=
   DrawOp.eraseRect rect ::
     (List.range rect.lines.toNat).flatMap fun (i : Nat) =>
       let line := rect.top + (i : Int)
-      (lineRuns (glyph line) rect.left rect.cols.toNat).map fun (s, gs) => DrawOp.textAt line s gs
+      (lineRuns (glyph line) rect.left rect.cols.toNat).map fun (s, gs) =>
+        DrawOp.textAt line s (gs.flatMap fun g => if g ≥ 1000 then [g % 1000, 0x301] else [g])
 
 def instrOps (id : Nat) (glyph : Int → Int → Nat) (rect : Rect) : Instr → List DrawOp
   | .paint => paintProg glyph rect
@@ -165,14 +189,15 @@ def oracleOf (mode : Nat) : Oracle := fun tl tc rect d r =>
 
 /-! ### printing -/
 
-def glyphChar (g : Nat) : Char :=
-  if g = 32 then '~' else if g = 0 then '}' else if 33 ≤ g ∧ g ≤ 122 then Char.ofNat g else '{'
+def glyphChars (g : Nat) : List Char :=
+  if g = 32 then ['.', '~'] else if g = 0 then ['}', '}'] else if 33 ≤ g ∧ g ≤ 122 then ['.', Char.ofNat g]
+  else if 0xff01 ≤ g ∧ g ≤ 0xff5e then ['W', Char.ofNat (g - 0xfee0)] else ['{', '{']
 
 def colourChar (v : Int) : Char :=
   if -1 ≤ v ∧ v ≤ 40 then Char.ofNat (48 + (v + 1).toNat) else '!'
 
 def cellChars (x : Cell) : List Char :=
-  [glyphChar x.glyph, colourChar x.fg, colourChar x.bg, if x.b then '1' else '0']
+  glyphChars x.glyph ++ [colourChar x.fg, colourChar x.bg, if x.b then '1' else '0']
 
 def showGrid (t : Tab) : String :=
   "|".intercalate ((List.range t.lines).map fun (l : Nat) =>
@@ -204,13 +229,13 @@ structure ImplObs where
   evs : List Ev
   grid : Option (Array (Array Cell))
 
-def charGlyph (ch : Char) : Nat :=
-  if ch = '~' then 32 else if ch = '}' then 0 else ch.toNat
+def charGlyph (k ch : Char) : Nat :=
+  if k = '}' then 0 else if k = 'W' then ch.toNat + 0xfee0 else if k = '{' then 0xfffd else if ch = '~' then 32 else ch.toNat
 
 def parseRow (s : String) : Array Cell :=
   let rec go : List Char → Array Cell → Array Cell
-    | g :: f :: b :: o :: rest, acc =>
-      go rest (acc.push { glyph := charGlyph g, fg := (f.toNat : Int) - 49, bg := (b.toNat : Int) - 49, b := o = '1' })
+    | k :: g :: f :: b :: o :: rest, acc =>
+      go rest (acc.push { glyph := charGlyph k g, fg := (f.toNat : Int) - 49, bg := (b.toNat : Int) - 49, b := o = '1' })
     | _, acc => acc
   go s.toList #[]
 
@@ -267,7 +292,7 @@ def specC01 (d : DSt) (pens : Array (Option Pen)) (o : ImplObs) : String :=
   | some g =>
     let t := o.tree
     let content : Id → Int → Int → Cell := fun w l c =>
-      Cell.ofPen (effPen t pens (t.wins.size + 1) w) (glyphAt w (d.shifts.getD w []) l c)
+      Cell.ofPen (effPen t pens (t.wins.size + 1) w) (glyphAt w (d.shifts.getD w []) l c % 1000)
     let bad := (List.range g.size).findSome? fun (l : Nat) =>
       (List.range (g.getD l #[]).size).findSome? fun (c : Nat) =>
         match WinSpec.compose t content (l : Int) (c : Int) with
